@@ -80,8 +80,76 @@ func genC29(seed int64, tier string, emit func(run.Case)) {
 		o := c29Opts(q)
 		o.Engine = eng
 		in := c29In{Text: gen.Diagram(q, o), Engine: eng, Pad: gen.Pick(q, pads), Center: q.P(0.2)}
+		if i%4 == 3 {
+			// icon / label extremes: few shapes of every type, each with an icon or label at an
+			// outside / border position as the outermost thing on its side, pad 0 or tiny
+			in.Text = c29ExtremesDiagram(q)
+			in.Pad = gen.Pick(q, []int64{0, 0, 1, 3})
+			emit(run.MkCase(fmt.Sprintf("c%06d", i), "extremes-"+eng, in))
+			continue
+		}
 		emit(run.MkCase(fmt.Sprintf("c%06d", i), eng, in))
 	}
+}
+
+var c29Positions = []string{"outside-top-left", "outside-top-center", "outside-top-right", "outside-left-top", "outside-left-center",
+	"outside-left-bottom", "outside-right-top", "outside-right-center", "outside-right-bottom", "outside-bottom-left",
+	"outside-bottom-center", "outside-bottom-right", "border-top-center", "border-left-center", "border-right-center", "border-bottom-center",
+	"top-left", "center-center", "bottom-right"}
+
+// c29ExtremesDiagram: 1–4 unconnected or sparsely connected shapes of random type (every
+// simple shape incl. the non-rectangular ones, whose inner box is smaller than the box), each
+// with an icon and/or a short label at an outside / border position, optional explicit size
+// and decorations. With so few shapes the icon or label is the outermost element on its side.
+func c29ExtremesDiagram(r *gen.R) string {
+	var sb strings.Builder
+	if r.P(0.3) {
+		sb.WriteString("direction: " + r.Str("right", "down", "left", "up") + "\n")
+	}
+	n := r.Range(1, 4)
+	for i := 0; i < n; i++ {
+		fmt.Fprintf(&sb, "s%d: {\n", i)
+		sh := gen.Pick(r, gen.SimpleShapes)
+		fmt.Fprintf(&sb, "  shape: %s\n", sh)
+		if r.P(0.5) {
+			sb.WriteString("  label: \"\"\n")
+		} else {
+			fmt.Fprintf(&sb, "  label: %s\n", r.Str("x", "label", "a longer label here"))
+			if r.P(0.6) {
+				fmt.Fprintf(&sb, "  label.near: %s\n", gen.Pick(r, c29Positions))
+			}
+		}
+		if r.P(0.8) {
+			sb.WriteString("  icon: https://icons.terrastruct.com/essentials/004-picture.svg\n")
+			fmt.Fprintf(&sb, "  icon.near: %s\n", gen.Pick(r, c29Positions[:16]))
+		}
+		if r.P(0.4) {
+			w := r.Range(4, 40) * 10
+			h := w
+			if sh != "circle" && sh != "square" {
+				h = r.Range(4, 40) * 10
+			}
+			fmt.Fprintf(&sb, "  width: %d\n  height: %d\n", w, h)
+		}
+		switch r.Intn(6) {
+		case 0:
+			sb.WriteString("  style.multiple: true\n")
+		case 1:
+			sb.WriteString("  style.shadow: true\n")
+		case 2:
+			if sh == "rectangle" || sh == "square" || sh == "hexagon" {
+				sb.WriteString("  style.3d: true\n")
+			}
+		}
+		if r.P(0.25) {
+			sb.WriteString("  c: inner\n")
+		}
+		sb.WriteString("}\n")
+	}
+	if n > 1 && r.P(0.5) {
+		fmt.Fprintf(&sb, "s0 -> s%d\n", n-1)
+	}
+	return sb.String()
 }
 
 func c29LabelClass(pos string) string {
@@ -231,8 +299,12 @@ func execC29(c run.Case) (res run.Result) {
 						if p.Elem == "text" {
 							continue // class / table rows: inside the box by construction of their own layout, anchors only
 						}
-						k := "shape-geometry:" + s.Type
-						elems = append(elems, c29Elem{Element: model.Element{Owner: s.ID, Kind: k + c29Deco(s), R: p.R}, fromSVG: true, extra: s.ThreeDee || s.Multiple})
+						k := "shape-geometry:" + s.Type + c29Deco(s)
+						if s.Type == d2target.ShapeC4Person || s.Type == d2target.ShapeClass {
+							// their own outline / row layout leaves the box whatever the decoration
+							k = "shape-geometry:" + s.Type
+						}
+						elems = append(elems, c29Elem{Element: model.Element{Owner: s.ID, Kind: k, R: p.R}, fromSVG: true, extra: s.ThreeDee || s.Multiple})
 					case p.Elem == "image":
 						k := "icon:" + c29LabelClass(s.IconPosition)
 						elems = append(elems, c29Elem{Element: model.Element{Owner: s.ID, Kind: k, R: p.R}, fromSVG: true, extra: true})
@@ -320,14 +392,23 @@ func execC29(c run.Case) (res run.Result) {
 				}
 				continue
 			}
-			if ex, side := e.R.Excess(bbox); ex > 1.0+1e-9 {
-				viol("C29.outside-bbox", "C29.outside-bbox:"+e.Kind,
-					fmt.Sprintf("board %d engine %s: %s of %q = %v sticks out of BoundingBox %v by %.2f px on the %s\n%s", bi, in.Engine, e.Kind, e.Owner, e.R, bbox, ex, side, in.Text))
+			// every side is judged on its own: the signature names the root-cause class (which side,
+			// bounded by which offset), so that a known finding cannot swallow a different defect of
+			// the same element kind
+			for _, sd := range c29Sides(e.R, bbox) {
+				if sd.ex > 1.0+1e-9 {
+					viol("C29.outside-bbox", "C29.outside-bbox:"+e.Kind+c29Trigger(e, shapes[e.Owner], sd.side, sd.ex),
+						fmt.Sprintf("board %d engine %s: %s of %q = %v sticks out of BoundingBox %v by %.2f px on the %s\n%s", bi, in.Engine, e.Kind, e.Owner, e.R, bbox, sd.ex, sd.side, in.Text))
+				}
 			}
 			if e.fromSVG {
-				if ex, side := e.R.Excess(doc.ViewBox); ex > 1.0+1e-9 {
-					viol("C29.outside-viewbox", "C29.outside-viewbox:"+e.Kind,
-						fmt.Sprintf("board %d engine %s pad %d: drawn %s of %q = %v lies outside the SVG viewBox %v by %.2f px on the %s\n%s", bi, in.Engine, pad, e.Kind, e.Owner, e.R, doc.ViewBox, ex, side, in.Text))
+				for _, sd := range c29Sides(e.R, doc.ViewBox) {
+					if sd.ex > 1.0+1e-9 {
+						// what matters for the cause is how far the element is outside the bounding box;
+						// the viewBox is that box plus pad
+						viol("C29.outside-viewbox", "C29.outside-viewbox:"+e.Kind+c29Trigger(e, shapes[e.Owner], sd.side, sd.ex+float64(pad)),
+							fmt.Sprintf("board %d engine %s pad %d: drawn %s of %q = %v lies outside the SVG viewBox %v by %.2f px on the %s\n%s", bi, in.Engine, pad, e.Kind, e.Owner, e.R, doc.ViewBox, sd.ex, sd.side, in.Text))
+					}
 				}
 			}
 		}
@@ -381,4 +462,63 @@ func c29NonfiniteTrigger(b *d2target.Diagram) string {
 		}
 	}
 	return "other"
+}
+
+type c29Side struct {
+	side string
+	ex   float64
+}
+
+func c29Sides(r, outer model.Rect) []c29Side {
+	return []c29Side{{"left", outer.X1 - r.X1}, {"top", outer.Y1 - r.Y1}, {"right", r.X2 - outer.X2}, {"bottom", r.Y2 - outer.Y2}}
+}
+
+// c29Trigger qualifies a violation signature by the predicate that separates one root cause
+// from another for the same element kind (s is the owning shape, nil for connections).
+func c29Trigger(e c29Elem, s *d2target.Shape, side string, ex float64) string {
+	k := e.Kind
+	vertical := side == "top" || side == "bottom"
+	switch {
+	case s == nil:
+		return ""
+	case strings.HasPrefix(k, "icon:outside"):
+		mainVertical := strings.HasPrefix(s.IconPosition, "OUTSIDE_TOP") || strings.HasPrefix(s.IconPosition, "OUTSIDE_BOTTOM")
+		if vertical == mainVertical {
+			return ":main-axis"
+		}
+		if ex <= 5+1 {
+			return ":cross-axis-by-corner-padding"
+		}
+		return ":cross-axis-beyond-corner-padding"
+	case strings.HasPrefix(k, "icon:border"):
+		half := (e.R.X2 - e.R.X1) / 2
+		if h := (e.R.Y2 - e.R.Y1) / 2; h > half {
+			half = h
+		}
+		if ex <= half+1 {
+			return ":by-at-most-half-the-icon"
+		}
+		return ":beyond-half-the-icon"
+	case strings.HasPrefix(k, "label") && strings.Contains(k, "+3d"):
+		if ex <= 15+1 {
+			return ":by-at-most-3d-offset"
+		}
+		return ":beyond-3d-offset"
+	case strings.HasPrefix(k, "label") && strings.Contains(k, "+multiple"):
+		if ex <= 10+1 {
+			return ":by-at-most-multiple-offset"
+		}
+		return ":beyond-multiple-offset"
+	case strings.HasPrefix(k, "shape-geometry:c4-person"):
+		if s.Width > s.Height {
+			return ":box-wider-than-tall"
+		}
+		return ":box-not-wider-than-tall"
+	case strings.HasPrefix(k, "shape-geometry:class"):
+		if strings.Contains(s.Label, "\n") {
+			return ":multi-line-header"
+		}
+		return ":single-line-header"
+	}
+	return ""
 }
